@@ -85,7 +85,8 @@ fn run_real(c: &Value, batches: &[Vec<Vec<u8>>]) -> Result<(u64, Result<Value, S
     let tc = c["tc"].as_str().unwrap_or("r").to_string();
     let stop = Arc::new(AtomicBool::new(false));
     let seen: Arc<Mutex<Vec<Vec<u8>>>> = Arc::new(Mutex::new(Vec::new()));
-    let (addr, server): (SocketAddr, Option<std::thread::JoinHandle<()>>) = if mode == "silent" {
+    let chalsilent = mode == "chalsilent";
+    let (addr, server): (SocketAddr, Option<std::thread::JoinHandle<()>>) = if mode == "silent" || chalsilent {
         let s = std::net::UdpSocket::bind(SocketAddr::new(ip, 0)).map_err(|e| format!("bind udp {ip}: {e}"))?;
         let addr = s.local_addr().unwrap();
         s.set_read_timeout(Some(Duration::from_millis(20))).unwrap();
@@ -103,6 +104,12 @@ fn run_real(c: &Value, batches: &[Vec<Vec<u8>>]) -> Result<(u64, Result<Value, S
                             for d in b {
                                 let _ = s.send_to(d, from);
                             }
+                        }
+                    } else if chalsilent {
+                        // a request that does not end with the challenge issued gets that challenge; the challenged request: silence
+                        const CHAL: [u8; 4] = [0x5a, 0x11, 0xc3, 0x7e];
+                        if len < 4 || buf[len - 4 .. len] != CHAL {
+                            let _ = s.send_to(&[&[0xff, 0xff, 0xff, 0xff, 0x41][..], &CHAL[..]].concat(), from);
                         }
                     }
                     n += 1;
@@ -204,6 +211,7 @@ pub fn replay(fctx: &fuzz::Ctx, cases: &[Value], seed: u64, rep: &mut Report) {
         c["__b"] = line["b"].clone();
         c["__class"] = line["class"].clone();
         c["__stepms"] = line["stepms"].clone();
+        c["__maxreqs"] = line["maxreqs"].clone();
         let p = c["p"].as_str().unwrap().to_string();
         // plain single-datagram replies only (no challenge / split), so that `answered` counts request units
         let batches: Vec<Vec<Vec<u8>>> = if p == "eco" {
@@ -266,6 +274,11 @@ pub fn replay(fctx: &fuzz::Ctx, cases: &[Value], seed: u64, rep: &mut Report) {
         }
         if ms > bound_ms {
             rep.violation("C12", &format!("{fam}: returned after {} x timeout + slack", c["__b"]), json!({"kind":"real-socket","case":case}));
+        }
+        let maxreqs = c["__maxreqs"].as_u64().unwrap_or(0) as usize;
+        if maxreqs > 0 && reqs.len() > maxreqs {
+            rep.violation("C12", &format!("{fam}: the server saw more requests than the attempts allow (attempts are multiplied)"),
+                          json!({"kind":"real-socket","case":case,"seen":reqs.len(),"allowed":maxreqs,"requests":reqs.iter().map(|r| hex(r)).collect::<Vec<_>>()}));
         }
         let ok = match (class, &outcome) {
             ("timeout", Err(k)) => k == "PacketReceive" || k == "PacketSend",
